@@ -764,6 +764,143 @@ def unit_dirs(ctx):
 
 
 THOROUGH = "thorough" in sys.argv
+# ------------------------------------------------------------------ SDMX: gradient of the solid harmonics through the Gaunt table
+def solid_harmonic(l, m, p):
+    """r^l Y_lm(p/|p|) as a homogeneous polynomial (the specification harmonic with z^(l-|m|-2k) multiplied by |p|^(2k))."""
+    from math import factorial
+    from specs import real_sph_harm as RSH
+    am = abs(m)
+    c = RSH.deriv_coeffs(RSH.legendre_coeffs(l), am)
+    r2 = p[0] * p[0] + p[1] * p[1] + p[2] * p[2]
+    pz = tm.ZERO
+    for j, cj in enumerate(c):
+        if cj != 0:
+            k = (l - am - j) // 2
+            pz = pz + tm.const(cj) * (p[2] ** j if j else tm.ONE) * (r2 ** k if k else tm.ONE)
+    n2 = Q(2 * l + 1, 4) * Q(factorial(l - am), factorial(l + am))
+    norm = tm.mk_sqrt(tm.const(n2)) / tm.mk_sqrt(tm.PI)
+    if m == 0:
+        return norm * pz
+    re, im = RSH.xy_power(tm, p[0], p[1], am)
+    return tm.mk_sqrt(tm.const(2)) * norm * pz * (re if m > 0 else im)
+
+
+# (component, target row offset within degree l+1 as a function of (l, im), row of the coefficient table)
+GRAD_PATTERN = [
+    ("z", 3, lambda l, im: im + 1, 4),
+    ("x", 1, lambda l, im: im, 0),
+    ("x", 1, lambda l, im: im + 2, 1),
+    ("y", 2, lambda l, im: 2 * l - im, 2),
+    ("y", 2, lambda l, im: 2 * l - im + 2, 3),
+]
+
+
+def unit_sdmx_grad(ctx):
+    """SDMXylm_grad: component c of degree l+1 is accumulated from degree l of the values with the index pattern GRAD_PATTERN (all sizes)."""
+    from contracts import c10
+    from pyvc import intarith
+    rel = "mod_cider/fast_sdmx.c"
+    fn = "SDMXylm_grad"
+    fq = ["lib/%s:%s" % (rel, fn)]
+    tu = cparse.load(rel)
+    s = CSym([tu] + [cparse.load(h) for h in c10.HELPER_TUS])
+    args = {p: c10.mk_value(tu, ty, p) for p, ty in tu.params(fn)}
+    s.hyps = c10.nonneg_hyps(args)
+    s.monotone_tables = {"ylm_atom_loc"}
+    ctx.assume("requires ylm_atom_loc non-decreasing and non-negative (it is a cumulative sum of (lmax_atom+1)^2, sdmx.py:_get_ylm_atom_loc)")
+    try:
+        s.run(fn, args)
+    except CUnsupported as e:
+        ctx.undecided("%s summarised" % fn, str(e)[:200], fq)
+        return
+    ng, Y = args["ngrids"], tm.mk_fi("ylm_atom_loc", args["natm"])
+    acc = [e for e in s.events if e.kind == "w" and e.op == "+="]
+    zero = [e for e in s.events if e.kind == "w" and e.op == "="]
+    ctx.holds("%s: three zero-initialisations (one per Cartesian component) and five accumulations" % fn, len(acc) == 5 and len(zero) == 3 and all(tm.lift(e.val) is tm.ZERO for e in zero), "%d / %d" % (len(zero), len(acc)), fq)
+    nfc = NF()
+    assumes = [x[1] for x in s.side if x[0] == "assume"]
+    matched = set()
+    for e in acc:
+        names = {q[0].args[0].split("#")[0]: q[0] for q in e.qvars}
+        if not all(k in names for k in ("blk", "l", "m", "g")):
+            ctx.undecided("%s accumulation structure" % fn, "loop variables %s" % sorted(names), fq)
+            continue
+        l, im, g = names["l"], names["m"], names["g"]
+        v = tm.lift(e.val)
+        # the value read: y[(l^2 + im) * ngrids + g] of the same block; its index gives the block base
+        src = [u for u in tm.subterms(v).values() if u.op == "f" and u.args[0] == "rd:ylm_vlg"]
+        tab = [u for u in tm.subterms(v).values() if u.op == "f" and u.args[0] == "rd:gaunt_vl"]
+        if len(src) != 1 or len(tab) != 1:
+            ctx.holds("%s accumulates (table entry) * (value row)" % fn, False, tm.show(v, 100), fq)
+            continue
+        base = nfc.rf_to_term(nfc.nf(src[0].args[1] - (l * l + im) * ng - g))
+        ctx.holds("%s accumulated value = gaunt entry * y[l^2 + m] of the same (atom, grid point)" % fn, nfc.equal(v, tab[0] * src[0]) and not any(u in (l, im, g) for u in tm.subterms(base).values()), tm.show(v, 100), fq)
+        hit = None
+        for (cname, comp, row, trow) in GRAD_PATTERN:
+            want_idx = comp * Y * ng + base + ((l + 1) * (l + 1) + row(l, im)) * ng + g
+            want_tab = trow * args["gaunt_nlm"] + l * l + im
+            if nfc.equal(e.idx, want_idx) and nfc.equal(tab[0].args[1], want_tab):
+                hit = (cname, comp, trow)
+        ctx.holds("%s accumulation #%d follows the gradient pattern (component, target row of degree l+1, table row)" % (fn, len(matched) + 1), hit is not None and hit not in matched, "index %s, table %s" % (tm.show(e.idx, 120), tm.show(tab[0].args[1], 60)), fq)
+        if hit:
+            matched.add(hit)
+        # the target row lies inside the atom's block (so it was zero-initialised by this iteration and belongs to this atom)
+        ia_tabs = [u for u in tm.subterms(base).values() if u.op == "fi" and u.args[0] == "ylm_atom_loc"]
+        if ia_tabs and hit:
+            ia = ia_tabs[0].args[1]
+            nlm = tm.mk_fi("ylm_atom_loc", ia + 1) - tm.mk_fi("ylm_atom_loc", ia)
+            row_t = nfc.rf_to_term(nfc.nf((e.idx - hit[1] * Y * ng - base - g)))     # row * ngrids
+            rng = [c for (qv, lo, hi, st) in e.qvars for c in (tm.mk_le(tm.lift(lo), qv), tm.mk_lt(qv, tm.lift(hi)))]
+            H = list(s.hyps) + assumes + rng + list(e.guards)
+            r_, env, be = intarith.check_sat_int(H + [tm.mk_not(tm.mk_and(tm.mk_le(tm.ZERO, row_t), tm.mk_lt(row_t, nlm * ng)))], 20.0)
+            ctx._rec("obligation", "%s accumulation into component %s stays inside the atom's block of harmonics (rows 0 .. nlm-1)" % (fn, hit[0]),
+                     vc.Verdict("discharged" if r_ == "unsat" else "refuted" if r_ == "sat" else "undecided", be, witness=env if r_ == "sat" else None), fq)
+    ctx.holds("%s: all five pattern entries are present" % fn, len(matched) == 5, "%s" % sorted(matched), fq)
+
+
+def exact_gaunt(L):
+    """The table get_deriv_ylm_coeff(L) evaluated natively, each entry matched to sign * sqrt(rational)."""
+    from pyvc import native
+    native.install_shim()
+    from ciderpress.dft.sph_harm_coeff import get_deriv_ylm_coeff
+    G = get_deriv_ylm_coeff(L)
+    out = {}
+    worst = 0.0
+    for k in range(G.shape[0]):
+        for lm in range(G.shape[1]):
+            t = float(G[k, lm])
+            q = Q(t * t).limit_denominator(10 ** 6)
+            worst = max(worst, abs(float(q) ** 0.5 - abs(t)))
+            out[(k, lm)] = (q, 1 if t >= 0 else -1)
+    return G, out, worst
+
+
+def unit_gaunt_table(L):
+    def run(ctx):
+        fq = ["ciderpress.dft.sph_harm_coeff:get_deriv_ylm_coeff"]
+        bound = "lmax <= %d; the table is evaluated natively (sympy Clebsch-Gordan coefficients, floating point) and each entry identified with sign*sqrt(p/q), q <= 10^6" % L
+        try:
+            G, ex, worst = exact_gaunt(L)
+        except Exception as e:
+            ctx.undecided("gaunt table evaluated", "%s: %s" % (type(e).__name__, e), fq)
+            return
+        ctx.bounded("get_deriv_ylm_coeff(%d): every entry is sign*sqrt(rational) to 1e-12" % L, worst < 1e-12, bound, "max deviation %.2e" % worst)
+        p = [tm.var(c) for c in "xyz"]
+        T = lambda k, lm: ex[(k, lm)][1] * tm.mk_sqrt(tm.const(ex[(k, lm)][0]))
+        for l in range(L):
+            contrib = {(c, j): tm.ZERO for c in range(1, 4) for j in range(2 * l + 3)}
+            for im in range(2 * l + 1):
+                R = solid_harmonic(l, im - l, p)
+                for (cname, comp, row, trow) in GRAD_PATTERN:
+                    contrib[(comp, row(l, im))] = contrib[(comp, row(l, im))] + T(trow, l * l + im) * R
+            for (comp, j), v in sorted(contrib.items()):
+                want = tm.diff(solid_harmonic(l + 1, j - (l + 1), p), p[comp - 1])
+                v_ = vc.decide_equal([], v, want)
+                ctx._rec("bounded", "gradient pattern with this table: d/d%s of the solid harmonic (l=%d, m=%d) = sum of table entries * degree-%d solid harmonics" % ("xyz"[comp - 1], l + 1, j - (l + 1), l),
+                         vc.Verdict(v_.status, "bounded[%s]+%s" % (bound, v_.backend), v_.detail, witness=v_.witness), fq)
+    return run
+
+
 SPH_DEGREES = list(range(1, 16)) if THOROUGH else [1, 2, 3, 4, 6, 10]
 SPH_DERIV_DEGREES = list(range(1, 11)) if THOROUGH else [1, 2, 4, 6]
 
@@ -786,6 +923,8 @@ def units():
         u.append(("sph-deriv/%d" % L, unit_sph_deriv(L)))
     u.append(("sph-lemmas", unit_sph_lemmas(max(SPH_DEGREES))))
     u.append(("yzx2xyz", unit_yzx2xyz))
+    u.append(("sdmx-grad", unit_sdmx_grad))
+    u.append(("gaunt-table", unit_gaunt_table(8 if THOROUGH else 5)))
     for fwd, bwd, tabs in c05.INPLACE:
         u.append(("lp1/%s" % fwd, c05.unit_inplace(fwd, bwd, tabs)))
     return u
